@@ -7,6 +7,7 @@ import (
 	"sort"
 
 	"github.com/advancedclimatesystems/gonnx"
+	"github.com/advancedclimatesystems/gonnx/onnx"
 	"google.golang.org/protobuf/proto"
 	"gorgonia.org/tensor"
 )
@@ -208,5 +209,48 @@ func genC13(dir, tier string, seed int64) {
 		intro.Violations = intro.Violations[:20]
 	}
 	meta.GoOnly = append(meta.GoOnly, intro)
+
+	// declared element types: the signature is enforced on rank and fixed dimensions for inputs of every
+	// element type (a `Shape` node reads the input, so the graph runs for any of them)
+	et := goOnlyResult{Stream: "C13_element_types", Rule: "for each of the 11 supported element types T: a model whose input is declared T[N,3] (elem_type T) feeding a Shape node: a tensor of type T and shape (k,3), k = 1..3, is accepted and yields [k,3]; shapes (k,4), (3) and (k,3,1) are rejected with an error and no outputs", Violations: []string{}}
+	codes := map[tensor.Dtype]int32{tensor.Float32: 1, tensor.Uint8: 2, tensor.Int8: 3, tensor.Uint16: 4, tensor.Int16: 5, tensor.Int32: 6, tensor.Int64: 7, tensor.Bool: 9, tensor.Float64: 11, tensor.Uint32: 12, tensor.Uint64: 13}
+	for _, d := range dtypes {
+		code, ok := codes[d]
+		if !ok {
+			continue
+		}
+		g := &onnx.GraphProto{Name: "g",
+			Input: []*onnx.ValueInfoProto{{Name: "x", Type: &onnx.TypeProto{Value: &onnx.TypeProto_TensorType{TensorType: &onnx.TypeProto_Tensor{ElemType: code, Shape: &onnx.TensorShapeProto{Dim: []*onnx.TensorShapeProto_Dimension{
+				{Value: &onnx.TensorShapeProto_Dimension_DimParam{DimParam: "N"}}, {Value: &onnx.TensorShapeProto_Dimension_DimValue{DimValue: 3}}}}}}}}},
+			Output: []*onnx.ValueInfoProto{{Name: "y"}},
+			Node:   []*onnx.NodeProto{{OpType: "Shape", Input: []string{"x"}, Output: []string{"y"}}}}
+		b, _ := proto.Marshal(&onnx.ModelProto{IrVersion: 7, OpsetImport: []*onnx.OperatorSetIdProto{{Version: 13}}, Graph: g})
+		m, err := gonnx.NewModelFromBytes(b)
+		if err != nil {
+			et.Violations = append(et.Violations, fmt.Sprintf("%v: model does not load: %v", d, err))
+			continue
+		}
+		for k := 1; k <= 3; k++ {
+			for _, shp := range [][]int{{k, 3}, {k, 4}, {3}, {k, 3, 1}} {
+				et.N++
+				good := len(shp) == 2 && shp[1] == 3
+				out, err, pan := runRec(m, gonnx.Tensors{"x": mkT(d, shp, iota64(numel(shp), 0))})
+				switch {
+				case pan:
+					et.Violations = append(et.Violations, fmt.Sprintf("%v %v: Run panicked", d, shp))
+				case good && err != nil:
+					et.Violations = append(et.Violations, fmt.Sprintf("a %v tensor of shape %v is rejected for an input declared %v[N,3]: %v", d, shp, d, err))
+				case good && (out["y"] == nil || fmt.Sprint(out["y"].Data()) != fmt.Sprintf("[%d 3]", k)):
+					et.Violations = append(et.Violations, fmt.Sprintf("%v %v: wrong result %v", d, shp, out["y"]))
+				case !good && err == nil:
+					et.Violations = append(et.Violations, fmt.Sprintf("a %v tensor of shape %v is accepted for an input declared %v[N,3]", d, shp, d))
+				case !good && out != nil:
+					et.Violations = append(et.Violations, fmt.Sprintf("%v %v: outputs returned together with the error", d, shp))
+				}
+			}
+		}
+	}
+	et.Distinct = et.N
+	meta.GoOnly = append(meta.GoOnly, et)
 	_ = tensor.Float32
 }
